@@ -1228,7 +1228,7 @@ func (ctx *RenderContext) getItem(container, index interface{}) (interface{}, er
 			keyType := v.Type().Key()
 			indexValue := reflect.ValueOf(index)
 
-			if indexValue.IsValid() && indexValue.Type().ConvertibleTo(keyType) {
+			if indexValue.IsValid() && indexValue.CanConvert(keyType) {
 				mapKey = indexValue.Convert(keyType)
 			} else {
 				// Try string conversion for the key
